@@ -16,7 +16,9 @@ RULE = ("stream pubd (C10 mix): seeded request sequences against the real Reposi
 
 
 def check(ctx):
-    vlib.prove(ctx, ["KrillModel.Props.C10"])
+    # order of the two persisted store calls of remove_publisher, regenerated from pubd/manager.rs
+    vlib.translate(ctx, [("event_tasks", "EventTasks.lean")])
+    vlib.prove(ctx, ["KrillModel.Props.C10", "KrillModel.Props.C10Removal"])
     found = False
     if vlib.build_harness(ctx, ["pubd"]):
         jobs, n, length = (8, 30, 12) if ctx.tier == "quick" else (12, 600, 16)
